@@ -68,12 +68,14 @@ pub fn table_of<R: KhRing>(h: &KhHomologyBigraded<R>) -> Table where for<'x> &'x
 /// `split = Some(m)`: divide and conquer — the first m crossings (of `order`, or of the diagram) and the remaining
 /// ones are turned into two tangle complexes of their own, each carrying the degree shift of its own crossings,
 /// glued with the public planar composition `TngComplex::connect`, then finalised through the builder
-pub struct BuildCfg { pub order: Option<Vec<usize>>, pub auto_deloop: bool, pub auto_elim: bool, pub split: Option<usize> }
+/// `h_range = Some((k, h0, h1))`: the first k crossings are absorbed, then `set_h_range(h0..=h1)` is called on the
+/// partially built complex, then the rest is absorbed; only the degrees strictly between h0 and h1 are comparable
+pub struct BuildCfg { pub order: Option<Vec<usize>>, pub auto_deloop: bool, pub auto_elim: bool, pub split: Option<usize>, pub h_range: Option<(usize, isize, isize)> }
 
-impl BuildCfg { pub fn default_cfg() -> Self { BuildCfg { order: None, auto_deloop: true, auto_elim: true, split: None } } }
+impl BuildCfg { pub fn default_cfg() -> Self { BuildCfg { order: None, auto_deloop: true, auto_elim: true, split: None, h_range: None } } }
 
 pub fn build_complex<R: KhRing>(l: &Link, h: &R, t: &R, reduced: bool, cfg: &BuildCfg) -> KhComplex<R> where for<'x> &'x R: EucRingOps<R> {
-    if cfg.order.is_none() && cfg.auto_deloop && cfg.auto_elim && cfg.split.is_none() { return KhComplex::new(l, h, t, reduced) }
+    if cfg.order.is_none() && cfg.auto_deloop && cfg.auto_elim && cfg.split.is_none() && cfg.h_range.is_none() { return KhComplex::new(l, h, t, reduced) }
     let base_pt = if reduced { l.first_edge() } else { None };
     if let Some(m) = cfg.split {
         let xs = l.data().clone();
@@ -103,6 +105,20 @@ pub fn build_complex<R: KhRing>(l: &Link, h: &R, t: &R, reduced: bool, cfg: &Bui
     let mut b = TngComplexBuilder::new(l, h, t, base_pt);
     b.auto_deloop = cfg.auto_deloop;
     b.auto_elim = cfg.auto_elim;
+    if let Some((k, h0, h1)) = cfg.h_range {
+        let xs = l.data().clone();
+        let n = xs.len();
+        let order: Vec<usize> = cfg.order.clone().unwrap_or_else(|| (0..n).collect());
+        let k = k.min(n);
+        b.set_elements(vec![]); // canonical cycles are not carried through a truncation
+        b.set_crossings(order[..k].iter().map(|&i| xs[i].clone()));
+        b.process_all();
+        b.set_crossings(order[k..].iter().map(|&i| xs[i].clone()));
+        b.set_h_range(h0..=h1);
+        b.process_all();
+        b.finalize();
+        return b.into_kh_complex()
+    }
     if let Some(order) = &cfg.order {
         let xs = l.data().clone();
         b.set_crossings(vec![]);
